@@ -74,6 +74,10 @@ CLAIMS["C07"] = dict(
     text="Deductive proof for densify() on one edge in any position/direction with any resolution and an unbounded number of inserted points (inner while loop under an invariant): first/last vertex kept, every consecutive pair within the resolution, each inserted point on the edge at a multiple of the resolution; an edge is skipped only when it is short enough.",
     note="shapely LineString.length / interpolate are ASSUMED (Euclidean length, linear interpolation); floats are reals. Multi-edge polylines, segmented() (type, ring/part structure, area/length, subsequence) and to_crs (identity in the same CRS, ValueError without CRS, vertex-exact mapping by pyproj, there-and-back) only by BOUNDED native checks (20 polylines, 36 geometry x resolution cases, 41 geometry x CRS cases); projection accuracy inside pyproj and dateline handling are not decided",
     technique=TECH + "; loop invariant (inner while loop)", design_ref="DESIGN.md §2 C07")
+CLAIMS["C11"] = dict(
+    text="Deductive proof of the dispatch of the real compute_output_geobox over ghost collaborators, for every combination of {own CRS, other CRS with same / different units, utm request} x {auto, fit, same, number, Resolution, unknown keyword} x {no shape, (ny,nx), n} x anchor/tight x tol x round_resolution: the source is returned unchanged exactly for own CRS + default options; otherwise the result is GeoBox.from_bbox of the footprint's bounding box (buffer 0.9 source pixels, 100 points per side) in the CRS the footprint resolved to, with shape/tight/anchor/tol passed through and the resolution chosen by the documented rule (source resolution for same units, square inverted-Y mean of the centre-pixel fit otherwise, the explicit value, none when a shape is given). GeoBox.from_bbox (C08 contracts: covers the box up to tol, axis aligned, anchor alignment, < 1 pixel excess/displacement, exact shape) carries the enclosure of the footprint; footprint buffers by +0.9 x max|pixel size| for every grid orientation (lemma); utm / utm-n / utm-s: exhaustive enumeration of the 60 x 2 WGS84 zones x 5 spellings on the real norm_crs (same zone, requested hemisphere).",
+    note="that the buffered, densified, projected footprint contains the projected position of every source pixel is shapely/pyproj geometry: ASSUMED, with a BOUNDED native end-to-end check (9 source grids incl. rotated/mirrored/south-up, metre and degree based, 8 km to continental x 6-8 target CRSs x 9-13 option sets = 576 requests, 729 source positions each); CRS.utm's choice of zone (pyproj database query + valid-area overlap) only by that bounded check; KNOWN FINDING: shape=<int> without tight gives N+1 pixels on the longest side",
+    technique=TECH + "; exhaustive enumeration for the finite utm zone arithmetic", design_ref="DESIGN.md §2 C11")
 NA = {
     "C09": "xarray object-model behaviour (coords/attrs/encoding propagation); no contract within reach can state it - see DESIGN.md C09",
     "C13": "equality of GDAL warps (whole vs chunked) and dask scheduling; no contract within reach - see DESIGN.md C13",
